@@ -287,7 +287,10 @@ def run_case(res, case, attempt=0):
     finally:
         asceprovider.AssociationAcceptor.receive = orig_receive
     tcpnet.wait_quiet(0, 3.0)
-    if isinstance(client_error, exceptions.DCMTimeoutError) and attempt < 2:
+    peer_timed_out = any('timed out' in e or 'TimeoutError' in e for e in wire.get('peer_errors', []))
+    if (isinstance(client_error, exceptions.DCMTimeoutError) or peer_timed_out) and attempt < 2:
+        # a time-out on a loaded machine is not a verdict: the case is run again, alone and
+        # without injected delays; only a failure that persists is reported
         res.count('flaky-timeouts')
         return run_case(res, {'index': i, 'seed': seed}, attempt + 1)
     judge(res, case, where, scenario, triple, pair, point, client_error, server_errors, service_calls, wire,
